@@ -706,7 +706,7 @@ def structured_engine_cases(ctx, crcmod):
             good = int(exp, 2) if exp else 0
             if target is not None:
                 ctx.count(f"structured:engine:{name}:target-hit" if good == target else f"structured:engine:{name}:target-missed")
-            for v in (good, good ^ (1 << rng.randrange(w)), 0, full):
+            for v in dict.fromkeys((good, good ^ (1 << rng.randrange(w)), 0, full)):
                 for mode, mt in ((bit_calc, "b"), (tab_calc, "t")):
                     r = call(mode.verify_checksum, bitarray(ba_), v)
                     pairs_v.append((f"crc.verify {name} {mt} {arg} {v}", out_bool(r)))
@@ -831,7 +831,7 @@ def structured_front_cases(ctx, CRC8, CRC9, CRC16, CRC32, CrcMasks):
             ctx.count("structured:front:crc8:target-hit" if good == tv else "structured:front:crc8:target-missed")
             if r != good:
                 ctx.fail("crc8-front", {"component": "crc8", "bits": barg(a)}, f"CRC8.calculate is not the plain remainder (data constructed for the result {tv:#04x})", expected=good, actual=out_int(r))
-            for v in (good, good ^ (1 << rng.randrange(8)), 0, 255):
+            for v in dict.fromkeys((good, good ^ (1 << rng.randrange(8)), 0, 255)):
                 c = call(CRC8.check, bitarray(a), v)
                 pairs8.append((f"crc8.check 0 {barg(a)} {v}", out_bool(c)))
                 ctx.case(("crc8.check-target", barg(a), v))
@@ -856,7 +856,7 @@ def structured_front_cases(ctx, CRC8, CRC9, CRC16, CRC32, CrcMasks):
                 ctx.count("structured:front:crc16:result-zero")
             if r != good:
                 ctx.fail("crc16-front", {"component": "crc16", "data": hex_str(d), "mask": m.name}, f"CRC16.calculate is not (inverted remainder) xor mask (data constructed for the result {tv:#06x})", expected=good, actual=out_int(r))
-            for v in (good & 0xFFFF, (good & 0xFFFF) ^ (1 << rng.randrange(16)), 0, 0xFFFF, mv & 0xFFFF):
+            for v in dict.fromkeys((good & 0xFFFF, (good & 0xFFFF) ^ (1 << rng.randrange(16)), 0, 0xFFFF, mv & 0xFFFF)):
                 c = call(CRC16.check, d, v, m)
                 pairs16.append((f"crc16.check {hex_str(d)} {v} {m.value}", out_bool(c)))
                 ctx.case(("crc16.check-target", d, v, m.name))
@@ -906,7 +906,7 @@ def structured_front_cases(ctx, CRC8, CRC9, CRC16, CRC32, CrcMasks):
             if r != good:
                 ctx.fail("crc9-front", {"component": "crc9", "data": hex_str(d), "serial": sn, "mask": m.name, "crc32": tag},
                          f"CRC9.calculate_from_parts is not (inverted remainder of data|crc32|dbsn) xor mask (parts constructed for the result {tv:#05x}, free bits in {field})", expected=good, actual=out_int(r))
-            for v in (good, good ^ (1 << rng.randrange(9)), 0, 511, mv):
+            for v in dict.fromkeys((good, good ^ (1 << rng.randrange(9)), 0, 511, mv)):
                 c = call(CRC9.check, d, sn, v, m, arg)
                 pairs9.append((f"crc9.check {hex_str(d)} {sn} {v} {m.value} {tag}", out_bool(c)))
                 ctx.case(("crc9.check-target", d, sn, v, m.name, tag))
@@ -937,7 +937,7 @@ def structured_front_cases(ctx, CRC8, CRC9, CRC16, CRC32, CrcMasks):
         ctx.count("structured:front:crc32:target-hit" if good == tv else "structured:front:crc32:target-missed")
         if r != good:
             ctx.fail("crc32-front", {"component": "crc32", "data": hex_str(d)}, f"CRC32.calculate is not the remainder over the pairwise swapped octets (data constructed for the result {tv:#010x})", expected=good, actual=out_int(r))
-        for v in (good, good ^ (1 << rng.randrange(32)), 0, 0xFFFFFFFF):
+        for v in dict.fromkeys((good, good ^ (1 << rng.randrange(32)), 0, 0xFFFFFFFF)):
             c = call(CRC32.check, d, v)
             pairs32.append((f"crc32.check {hex_str(d)} {v}", out_bool(c)))
             ctx.case(("crc32.check-target", d, v))
@@ -1066,7 +1066,7 @@ def stream_cases(ctx, crcmod):
                         reg, where = shared, "shared"
                 else:
                     reg, where = shared, "shared"
-                mutate = (i + i // 12) % 5 == 3  # the caller scribbles over every object update() hands back
+                mutate = (i + i // 12) % 5 == 3  # the caller scribbles over every object update() hands back and over its own buffer
                 held, outs, err = [], [], None
                 r = call(reg.init)
                 if is_err(r):
@@ -1089,6 +1089,7 @@ def stream_cases(ctx, crcmod):
                     if mutate and isinstance(r, bitarray):
                         r.invert()
                         held[-1] = (r, out_bits(r))
+                        arg.setall(1)  # … and re-uses the buffer it passed in
                 if not err:
                     r = call(reg.digest)
                     if is_err(r):
@@ -1363,6 +1364,99 @@ def replay(obj):
         print(f"implementation CRC9.calculate_from_parts = {r}; expected {good}")
         lines = [f"crc9 {hex_str(d)} {inp['serial']} {m.value} {tag}"]
         still = int(r != good)
+    elif comp == "crc16.check":
+        d = bytes.fromhex(inp["data"]) if inp["data"] != "-" else b""
+        m = CrcMasks[inp["mask"]]
+        v = inp["value"]
+        good = (rem_int(bytes_bits(d), 16) ^ 0xFFFF) ^ ETSI_MASKS.get(m.name, m.value)
+        exp = "ERR AssertionError" if not (0 <= v <= 0xFFFF) else (v == good)
+        c = call(CRC16.check, d, v, m)
+        print(f"(inverted remainder) xor mask = {good}; implementation CRC16.calculate = {call(CRC16.calculate, d, m)}; CRC16.check(…, {v}, {m.name}) = {c}; expected {exp}")
+        lines = [f"crc16 {hex_str(d)} {m.value}", f"crc16.check {hex_str(d)} {v} {m.value}"]
+        still = int(c != exp)
+    elif comp == "crc8.check":
+        bits = bits_of(inp["bits"])
+        v = inp["value"]
+        good = rem_int(bits, 8)
+        exp = "ERR AssertionError" if not (0 <= v <= 255) else (v == good)
+        c = call(CRC8.check, bitarray(bits), v)
+        print(f"remainder = {good}; implementation CRC8.check(…, {v}) = {c}; expected {exp}")
+        lines = [f"crc8 0 {barg(bits)}", f"crc8.check 0 {barg(bits)} {v}"]
+        still = int(c != exp)
+    elif comp == "crc32.check":
+        d = bytes.fromhex(inp["data"]) if inp["data"] != "-" else b""
+        v = inp["value"]
+        good = rem_int(bytes_bits(ref_byteswap(d)), 32)
+        exp = "ERR AssertionError" if not (0 <= v <= 0xFFFFFFFF) else (v == good)
+        c = call(CRC32.check, d, v)
+        print(f"remainder over swapped octets = {good}; implementation CRC32.check(…, {v}) = {c}; expected {exp}")
+        lines = [f"crc32 {hex_str(d)}", f"crc32.check {hex_str(d)} {v}"]
+        still = int(c != exp)
+    elif comp == "crc9.check":
+        d = bytes.fromhex(inp["data"]) if inp["data"] != "-" else b""
+        m = CrcMasks[inp["mask"]]
+        tag, v, sn = inp["crc32"], inp["value"], inp["serial"]
+        arg = None if tag == "none" else (int(tag[2:]) if tag.startswith("i:") else bytes.fromhex(tag[2:]))
+        extra = [] if arg in (None, 0) else bytes_bits(arg if isinstance(arg, bytes) else arg.to_bytes(4, "big"))
+        good = (rem_int(bytes_bits(d) + extra + [(sn >> (6 - k)) & 1 for k in range(7)], 9) ^ 0x1FF) ^ ETSI_MASKS.get(m.name, m.value)
+        exp = "ERR AssertionError" if v > 511 else (v == good)
+        c = call(CRC9.check, d, sn, v, m, arg)
+        print(f"(inverted remainder) xor mask = {good}; implementation CRC9.check(…, {v}, …) = {c}; expected {exp}")
+        lines = [f"crc9 {hex_str(d)} {sn} {m.value} {tag}", f"crc9.check {hex_str(d)} {sn} {v} {m.value} {tag}"]
+        still = int(c != exp)
+    elif comp == "crc9.bits":
+        bits = bits_of(inp["bits"])
+        m = CrcMasks[inp["mask"]]
+        good = (rem_int(bits, 9) ^ 0x1FF) ^ ETSI_MASKS.get(m.name, m.value)
+        r = call(CRC9.calculate, bitarray(bits), m)
+        print(f"implementation CRC9.calculate = {r}; (inverted remainder) xor mask = {good}")
+        lines = [f"crc9.bits 0 {barg(bits)} {m.value}"]
+        still = int(r != good)
+    elif comp == "stream":
+        name = inp["config"]
+        w = widths[name]
+        table = bool(inp.get("table"))
+        cls = crcmod.TableBasedBitCrcRegister if table else crcmod.BitCrcRegister
+        reg = cls(enums[name].ETSI_DMR)
+        if inp.get("object") != "fresh" and inp.get("previous"):
+            call(reg.init)
+            for p in inp["previous"]:
+                call(reg.update, bits_of(p))
+            call(reg.digest)
+            print("(same register object, after the message it was fed before)")
+        pieces = [bits_of(p) for p in inp["pieces"]]
+        outs, exp, acc = [], [], bitarray()
+        call(reg.init)
+        for p in pieces:
+            r = call(reg.update, bitarray(p))
+            outs.append(out_bits(r))
+            if inp.get("mutate_returned") and isinstance(r, bitarray):
+                r.invert()
+            acc += p
+            exp.append("".join(str(x) for x in poly_rem(acc, w)))
+            if is_err(r):
+                break
+        outs.append(out_bits(call(reg.digest)))
+        exp.append("".join(str(x) for x in poly_rem(acc, w)))
+        one = out_bits(call(crcmod.BitCrcCalculator(enums[name].ETSI_DMR, table).calculate_checksum, bitarray(acc)))
+        print(f"init(); update(p) for the {len(pieces)} pieces; digest()\nimplementation returns: {','.join(outs)}\nremainders (reference): {','.join(exp)}\none-shot calculate_checksum of the concatenation: {one}")
+        lines = [f"crc.reg {name} {'t' if table else 'b'} i " + " ".join("u:" + barg(p) for p in pieces) + " d"]
+        still = int(outs != exp)
+    elif comp == "scribble":
+        name = inp["config"]
+        w = widths[name]
+        bits = bits_of(inp["bits"])
+        calc = crcmod.BitCrcCalculator(enums[name].ETSI_DMR, bool(inp.get("table")))
+        exp = "".join(str(x) for x in poly_rem(bits, w))
+        r1 = call(calc.calculate_checksum, bitarray(bits))
+        first = out_bits(r1)
+        if isinstance(r1, bitarray):
+            r1.invert()
+            r1 <<= 1
+        r2 = out_bits(call(calc.calculate_checksum, bitarray(bits)))
+        other = out_bits(call(crcmod.BitCrcCalculator(enums[name].ETSI_DMR, bool(inp.get("table"))).calculate_checksum, bitarray(bits)))
+        print(f"first call: {first}; after changing the returned bit string, same calculator: {r2}; new calculator: {other}; remainder: {exp}")
+        still = int(r2 != exp or other != exp)
     elif comp in ("ccitt-message", "ccitt-codeword"):
         m = CrcMasks[inp["mask"]]
         a = bits_of(inp["a"])
